@@ -39,7 +39,7 @@ template<class T> static void run(Rng& g, int n) {
 		  auto r2 = glm::slerp(y, x, (T)1 - t); Q4 R2 = toL(r2); Q4 R2n{-R2.w, -R2.x, -R2.y, -R2.z}; if (!nan && !(std::min(qdiff(R, R2), qdiff(R, R2n)) <= 4 * tol)) fail("slerp" + ty, std::string(cn[cls]) + ":symmetry", in, "slerp(y,x,1-t) up to sign", qs(r2)); }
 		{ count("slerp_k" + ty); auto r = glm::slerp(x, y, t, k); Q4 R = toL(r); Q4 E = ref_slerp(X, Y, t, k, true); bool nan = !(R.w == R.w && R.x == R.x); if (nan) fail("slerp_k" + ty, std::string(cn[cls]) + ":nan", in + " k=" + str(k), "finite", qs(r)); else if (!(qdiff(R, E) <= tol * 4) && !(fabsl(qdot(X, Y)) < 64 * eps)) fail("slerp_k" + ty, cn[cls], in + " k=" + str(k), "reference slerp with spins", qs(r));
 		  if (k == 0) { auto r0 = glm::slerp(x, y, t); if (!(qdiff(R, toL(r0)) <= tol)) fail("slerp_k" + ty, "k=0-vs-slerp", in, qs(r0), qs(r)); } }
-		if (cls != 3 && qdot(X, Y) > -0.99L) { count("mix" + ty); auto r = glm::mix(x, y, t); Q4 R = toL(r); Q4 E = ref_slerp(X, Y, t, 0, false); LD c0 = qdot(X, Y); LD s0 = sinl(acosl(std::max((LD)-1, std::min((LD)1, c0)))); LD tm = 64 * eps * (1 + fabsl((LD)t)) / std::max(s0, sqrtl(eps));
+		if (cls != 3 && qdot(X, Y) > -0.99L) { count("mix" + ty); auto r = glm::mix(x, y, t); Q4 R = toL(r); Q4 E = ref_slerp(X, Y, t, 0, false); LD c0 = qdot(X, Y); LD s0 = sinl(acosl(std::max((LD)-1, std::min((LD)1, c0)))); LD tm = 16 * eps * (1 + fabsl((LD)t)) * (c0 < 0 ? 1 / (s0 * s0) : 1);   /* the weights sin(k theta) / sin(theta) are well conditioned for small theta (an error of eps / theta in theta moves them by about eps); only towards theta = pi does 1 / sin(theta) amplify */
 		  bool nan = !(R.w == R.w && R.x == R.x); if (nan) fail("mix" + ty, std::string(cn[cls]) + ":nan", in, "finite", qs(r)); else if (!(qdiff(R, E) <= tm)) fail("mix" + ty, cn[cls], in, "reference (oriented arc)", qs(r)); }
 		{ T tl = (T)g.real(0, 1); count("lerp" + ty); auto r = glm::lerp(x, y, tl); Q4 R = toL(r); Q4 E{X.w * (1 - (LD)tl) + Y.w * tl, X.x * (1 - (LD)tl) + Y.x * tl, X.y * (1 - (LD)tl) + Y.y * tl, X.z * (1 - (LD)tl) + Y.z * tl}; if (!(qdiff(R, E) <= 8 * eps)) fail("lerp" + ty, "value", in, "x(1-a)+ya", qs(r)); }
 		// dual-quaternion lerp: the affine blend of x with +-y (the sign of dot(x.real, y.real), compared away from dot = 0), both parts; a in {0, 1} gives the end points
